@@ -527,6 +527,28 @@ fn star(n: usize, d: usize, d2: usize) -> Case {
     base_case(er, vr)
 }
 
+/// corpus/C15/<stream>_*.json (witnesses of fixed defects and of the mutations tried), replayed first
+fn corpus_cases(a: &Args, stream: &str) -> Vec<(String, serde_json::Value)> {
+    let mut out = vec![];
+    let mut it = a.extra.iter();
+    while let Some(x) = it.next() {
+        if x == "--corpus" {
+            if let Some(dir) = it.next() {
+                let mut names: Vec<PathBuf> = std::fs::read_dir(dir).map(|d| d.filter_map(|e| e.ok().map(|e| e.path())).collect()).unwrap_or_default();
+                names.sort();
+                for p in names {
+                    let n = p.file_name().unwrap().to_str().unwrap().to_string();
+                    if n.starts_with(&format!("{}_", stream)) && n.ends_with(".json") {
+                        let v: serde_json::Value = serde_json::from_str(&std::fs::read_to_string(&p).unwrap()).unwrap();
+                        out.push((format!("corpus:{}", &n[..n.len() - 5]), v["case"]["case"].clone()));
+                    }
+                }
+            }
+        }
+    }
+    out
+}
+
 fn files_stream(a: &Args) {
     let header = "From Coq Require Import ZArith List String.\nFrom RC Require Import Base.Show Model.Loader Model.LoaderRun.\nImport ListNotations.";
     let mut st = Stream::new(&a.out, "files", header, a.shards);
@@ -538,6 +560,10 @@ fn files_stream(a: &Args) {
         add_files_case(&mut st, &root, c, "replay");
         st.finish();
         return;
+    }
+    for (name, v) in corpus_cases(a, "files") {
+        let c: Case = serde_json::from_value(v).unwrap();
+        add_files_case(&mut st, &root, c, &name);
     }
     // ---- deterministic boundary families ----
     // degrees 0..9 out and in (the container changes representation at 5), every file format
@@ -893,6 +919,10 @@ fn tables_stream(a: &Args) {
         add_table_case(&mut st, &root, c, "replay");
         st.finish();
         return;
+    }
+    for (name, v) in corpus_cases(a, "tables") {
+        let c: TCase = serde_json::from_value(v).unwrap();
+        add_table_case(&mut st, &root, c, &name);
     }
     let kinds = [Kind::Speed, Kind::Grade, Kind::Class, Kind::Heading];
     // boundary: 0..3 rows, every kind, every format, with and without trailing newline
